@@ -4,15 +4,23 @@ use tokio::sync::mpsc::{unbounded_channel, UnboundedReceiver, UnboundedSender};
 
 /// library side of the pipe (wrapped by `PhysLayer::Verif`)
 pub struct VerifIo {
-    rx: UnboundedReceiver<Vec<u8>>,
+    rx: UnboundedReceiver<Chunk>,
     tx: UnboundedSender<(Option<tokio::time::Instant>, Vec<u8>)>,
     pending: VecDeque<u8>,
     datagram: bool,
+    /// socket address the bytes returned by the last `read` came from (datagram sources), if the harness named one
+    last_from: Option<std::net::SocketAddr>,
+}
+
+/// what the harness queues for one `read`: the octets and, optionally, the socket address they come from
+pub struct Chunk {
+    pub data: Vec<u8>,
+    pub from: Option<std::net::SocketAddr>,
 }
 
 /// harness side of the pipe
 pub struct VerifPeer {
-    pub to_lib: Option<UnboundedSender<Vec<u8>>>,
+    pub to_lib: Option<UnboundedSender<Chunk>>,
     pub from_lib: UnboundedReceiver<(Option<tokio::time::Instant>, Vec<u8>)>,
 }
 
@@ -25,6 +33,7 @@ pub fn pipe(datagram: bool) -> (VerifIo, VerifPeer) {
             tx,
             pending: VecDeque::new(),
             datagram,
+            last_from: None,
         },
         VerifPeer {
             to_lib: Some(to_lib),
@@ -45,10 +54,11 @@ impl VerifIo {
                 match self.rx.recv().await {
                     None => return Ok(0),
                     Some(chunk) => {
-                        if chunk.is_empty() {
+                        if chunk.data.is_empty() {
                             continue;
                         }
-                        self.pending.extend(chunk);
+                        self.last_from = chunk.from;
+                        self.pending.extend(chunk.data);
                         break;
                     }
                 }
@@ -62,6 +72,14 @@ impl VerifIo {
             self.pending.clear();
         }
         Ok(n)
+    }
+
+    /// the physical source address of what the last `read` returned
+    pub fn last_source(&self) -> crate::util::phys::PhysAddr {
+        match self.last_from {
+            Some(a) => crate::util::phys::PhysAddr::Udp(a),
+            None => crate::util::phys::PhysAddr::None,
+        }
     }
 
     pub async fn write_all(&mut self, data: &[u8]) -> std::io::Result<()> {
@@ -80,7 +98,24 @@ impl VerifIo {
 impl VerifPeer {
     pub fn send(&self, data: &[u8]) -> bool {
         match &self.to_lib {
-            Some(tx) => tx.send(data.to_vec()).is_ok(),
+            Some(tx) => tx
+                .send(Chunk {
+                    data: data.to_vec(),
+                    from: None,
+                })
+                .is_ok(),
+            None => false,
+        }
+    }
+    /// one datagram from the given (fictitious) socket address 10.0.0.<peer>:20000
+    pub fn send_from(&self, data: &[u8], peer: u8) -> bool {
+        match &self.to_lib {
+            Some(tx) => tx
+                .send(Chunk {
+                    data: data.to_vec(),
+                    from: Some(std::net::SocketAddr::from(([10, 0, 0, peer], 20000))),
+                })
+                .is_ok(),
             None => false,
         }
     }
